@@ -1297,6 +1297,7 @@ func (m *model) checkTimeouts(snap *scheduler.VerifSnapshot, now time.Time) {
 	}
 	m.justTicked = false
 	w := m.w
+	m.checkQueueSet(now)
 	for _, vw := range snap.Workers {
 		for _, wk := range w.workers {
 			if workerKeyOf(wk) == vw.Key && m.queueNameOf(wk) == vw.QueueName && wk.inFlight == nil && wk.everSync {
@@ -1410,4 +1411,51 @@ func (m *model) checkBackgroundBound(snap *scheduler.VerifSnapshot) {
 			m.label("background_backlog_full")
 		}
 	}
+}
+
+// checkQueueSet: C06/C05 "a worker-created queue without workers is removed
+// after its timeout" - not before and not after - "only predeclared queues
+// ... may remain", and a queue that has workers (or had them less than the
+// worker plus queue time-out ago) exists. The expected set is computed from
+// the history alone and compared with the ListPlatformQueues result of the
+// tick that precedes this observation.
+func (m *model) checkQueueSet(now time.Time) {
+	w := m.w
+	listed := map[string]bool{}
+	for _, pq := range m.queues {
+		for _, scq := range pq.SizeClassQueues {
+			listed[fmt.Sprintf("%s|%s|%d", pq.Name.InstanceNamePrefix, platformString(platformIndex(pq.Name.Platform)), scq.SizeClass)] = true
+		}
+	}
+	expected := map[string]string{}
+	for qi, q := range w.cfg.Queues {
+		for _, sc := range q.SizeClasses {
+			qn := fmt.Sprintf("%s|%s|%d", q.Prefix, platformString(q.Platform), sc)
+			if q.Predeclared {
+				expected[qn] = "it is predeclared"
+				continue
+			}
+			for _, wk := range w.workers {
+				if wk.queue != qi || wk.sizeClass != sc || !wk.everSync {
+					continue
+				}
+				if wk.inFlight != nil {
+					expected[qn] = fmt.Sprintf("worker %d is synchronizing", wk.idx)
+				} else if until := wk.lastRet.Add(workerTimeout + queueTimeout); now.Before(until) {
+					expected[qn] = fmt.Sprintf("worker %d synchronized at %s, which keeps the queue until %s", wk.idx, wk.lastRet.Sub(m.startAt), until.Sub(m.startAt))
+				}
+			}
+		}
+	}
+	for qn, why := range expected {
+		if !listed[qn] {
+			w.failf("C06: size class queue %s is not listed at %s although %s", qn, now.Sub(m.startAt), why)
+		}
+	}
+	for qn := range listed {
+		if _, ok := expected[qn]; !ok {
+			w.failf("C06: size class queue %s is still listed at %s although it is not predeclared and every worker that synchronized with it did so more than the worker time-out plus the queue time-out ago", qn, now.Sub(m.startAt))
+		}
+	}
+	m.label("queue_set_compared")
 }
